@@ -55,6 +55,14 @@ def check(run, P):
              "every field feeding the declared sets is either untouched by "
              "map_expressions or rebuilt from mapper(<same path>)", minimum=8)
 
+    reads_writes(run, P, classes)
+
+    _mapper_config(run, P)
+    _flow(run, P, classes)
+    _ident(run, P, classes)
+
+
+def reads_writes(run, P, classes, r_reads="C08.reads", r_writes="C08.writes"):
     interp = P.cls(sm.INTERP)
 
     for K in classes:
@@ -70,12 +78,12 @@ def check(run, P):
             if not paths:
                 # evaluator applied to something that is not derived from the
                 # statement (constant, local value)
-                run.ob("C08.reads", fn, call, True,
+                run.ob(r_reads, fn, call, True,
                        why=f"{K.name}: evaluated expression is not a statement field")
                 continue
             for p in sorted(paths):
                 ok = sm.covered(p, D)
-                run.ob("C08.reads", fn, call, ok,
+                run.ob(r_reads, fn, call, ok,
                        construct=f"{K.name}: evaluates stmt.{p} in {norm(call)}",
                        why=(f"interpreter evaluates stmt.{p} for {K.name} but "
                             f"{K.name}.get_read_variables() collects names only from "
@@ -88,15 +96,12 @@ def check(run, P):
             for p in sorted(paths):
                 is_loop_ident = p.startswith("loops[*][0]")
                 ok = p in W or is_loop_ident
-                run.ob("C08.writes", fn, node, ok,
+                run.ob(r_writes, fn, node, ok,
                        construct=f"{K.name}: self.context[stmt.{p}] ({ctx})",
                        why=(f"exec method touches store key stmt.{p} which "
                             f"{K.name}.get_written_variables() does not name "
                             f"({sorted(W)})"))
 
-    _mapper_config(run, P)
-    _flow(run, P, classes)
-    _ident(run, P, classes)
 
 
 def _mapper_config(run, P):
@@ -261,7 +266,7 @@ def _only_none_or_str(test, pname):
     return True
 
 
-def _flow(run, P, classes):
+def _flow(run, P, classes, rule="C08.flow"):
     """Collected values reach the return value and are accumulated in loops."""
     seen = set()
     for K in classes:
@@ -270,10 +275,10 @@ def _flow(run, P, classes):
                 if f in seen:
                     continue
                 seen.add(f)
-                _flow_func(run, P, f, meth)
+                _flow_func(run, P, f, meth, rule)
 
 
-def _flow_func(run, P, f, meth):
+def _flow_func(run, P, f, meth, rule="C08.flow"):
     from ..engine.match import func_body_stmts
     nested = set(f.nested)
     mapper_names = set()
@@ -366,7 +371,7 @@ def _flow_func(run, P, f, meth):
                 why = "updated set never reaches the return value"
             else:
                 ok, why = False, "collected value is discarded"
-            run.ob("C08.flow", f, s, ok,
+            run.ob(rule, f, s, ok,
                    construct=f"{norm(c, 60)} in {norm(s, 90)}",
                    why=why or "flows to the return value")
 
